@@ -14,11 +14,14 @@ def sh(cmd, cwd=None, env=None, timeout=1800):
 
 def main():
     prop, n = sys.argv[1], sys.argv[2]
+    base = os.environ.get('SEED_BASE', '/tmp/mut')
+    offset = int(os.environ.get('SEED_OFFSET', '0'))
     checks = sys.argv[3:] or [prop]
-    src = '/tmp/mut/%s/out' % prop
+    src = '%s/%s/out' % (base, prop)
     diff = '%s/mut%s.diff' % (src, n)
     demo = '%s/demo%s_test.go' % (src, n)
     wt = '/tmp/seedwt_%s_%s' % (prop, n)
+    outname = '%s-%d' % (prop, int(n) + int(os.environ.get('SEED_OFFSET', '0')))
     sh(['git', '-C', '/repo', 'worktree', 'remove', '--force', wt])
     rc, out = sh(['git', '-C', '/repo', 'worktree', 'add', '--detach', wt, 'HEAD'])
     assert rc == 0, out
@@ -69,7 +72,7 @@ def main():
     # regenerate the Lean facts for the real tree again (the check above regenerated them from the scratch tree)
     sh(['/verif/.build/extract', '/repo', '/verif/lean/GoSnaps/Generated'])
     if res.get('confirmed'):
-        dst = '/verif/seeded/%s-%s' % (prop, n)
+        dst = '/verif/seeded/%s-%d' % (prop, int(n) + offset)
         os.makedirs(dst, exist_ok=True)
         shutil.copy(diff, dst + '/patch.diff')
         shutil.copy(demo, dst + '/demo_test.go')
